@@ -3,16 +3,16 @@ demands (node alive, no handler deadlocked, allocation <= one frame + c x bytes 
 keeps); TLC enumerates every class sequence within the bounds; each sequence is instantiated as real bytes and sent to a
 REAL node (real p2p handshake and frame reader over net.Pipe feeding the real ProtocolManager, chain and stores) running in
 a sub-process; TraceWire.tla judges every logged step."""
-import json, os, glob
+import json, os, glob, re
 from vlib import Broken
 
 LEVEL = "exploration"
 
 MANIFEST = dict(
     level="exploration",
-    text="TLC enumerates all sequences of input classes (18 pre-handshake, 17 raw/encrypted frame, 15 protocol-handshake and ~115 "
-         "message classes: every dispatched code x {good, empty, truncated, wrong type, garbage} plus decodable-but-absurd payloads) "
-         "up to 2 (quick) / 3 (thorough) inputs per phase plus a reconnect probe; every sequence is instantiated as real bytes (seeded "
+    text="TLC enumerates all sequences of input classes (152 classes: 18 pre-handshake, 17 raw/encrypted frame, 15 protocol-handshake and ~110 "
+         "message classes: every dispatched code x {good, empty, truncated, wrong type, garbage} plus decodable-but-absurd payloads incl. deputy-signed blocks and floods) "
+         "up to 2 (quick) / 3 (thorough) inputs per phase plus a reconnect probe after every closing input; every sequence is instantiated as real bytes (seeded "
          "payloads and read splits) and replayed on a real node in a sub-process after a REAL handshake; exit status, connection state, "
          "lock-waiters in a consistent goroutine snapshot and TotalAlloc per step are judged by TLC against the trace spec.",
     note="The node is assembled like main/node.New and the inbound connection handled like p2p.Server.HandleConn/run (Server itself needs a TCP "
@@ -31,12 +31,16 @@ def nontrivial(files):
         beh = []
         for ln in open(f):
             e = json.loads(ln)
-            lines += 1
             if e["ev"] == "reset":
                 beh = []
                 continue
+            if e.get("stop") == "cap":
+                raise Broken("the node was still running %s after the quiescence cap without allocating much: cannot be judged (overloaded machine?): %s"
+                             % (e.get("busy"), json.dumps(e)[:400]))
             c = e["a"][0] if e.get("a") else e["ev"]
             beh.append(c)
+            if "dead" not in e:
+                lines += 1
             if e["ev"] == "Recv" and (e.get("read", 0) > 0 or e.get("alive") is False):
                 seen.add(tuple(beh))
                 if e.get("read", 0) >= 4096:
@@ -61,24 +65,35 @@ def run(ctx):
         if neg["inv"] != inv:
             raise Broken("negative control %s: expected violation of %s, got %s\n%s" % (c, inv, neg["inv"], neg["out"][-1500:]))
     ctx.extra["negative_controls"] = negs
-    env = {"WIRE_LIMIT_MS": "10000"}
+    env = {"WIRE_LIMIT_MS": "30000"}  # only ends the wait for code that keeps running; never a verdict
     files, summ = ctx.replay("wire", graph=dot, shards=16, maxlen=12, env=env, timeout=1500)
     if summ["panics"]:
         raise Broken("harness panicked inside the adapter (%d)" % summ["panics"])
     ok = ctx.validate("TraceWire", "TraceWire.cfg", files, what="class-sequence tree", timeout=1500)
     allfiles = list(files)
+    edges = summ["graph_edges"]
     if not ctx.quick():
-        # the same tree with two more instantiations of every class (payload bytes, read splits) ...
-        for extra_seed in (1, 2):
-            e2 = dict(env, VERIF_SEED=str(ctx.seed * 1000 + extra_seed))
-            f2, s2 = ctx.replay("wire", graph=dot, shards=16, maxlen=12, env=e2, timeout=1500, name="wire.s%d" % extra_seed)
-            ctx.validate("TraceWire", "TraceWire.cfg", f2, what="class-sequence tree, instantiation %d" % (extra_seed + 1), timeout=1500)
-            allfiles += f2
-        # ... and longer random walks in which every kept class carries on
-        sim = ctx.tlc_simulate("MCWire", "MCWire_sim.cfg", num=600, depth=9, prefix="wiresim", timeout=300)
-        f3, s3 = ctx.replay("wire", sim=sim, shards=16, env=env, timeout=1500, name="wire.sim")
-        ctx.validate("TraceWire", "TraceWire.cfg", f3, what="simulated longer sequences", timeout=1500)
+        # a second tree: fewer inputs per phase but every carrier class, heartbeats before the protocol handshake
+        dot2 = ctx.path("wire2.dot")
+        ctx.tlc_exhaustive("MCWire", "MCWire_thorough2.cfg", timeout=600, dump=dot2)
+        f2, s2 = ctx.replay("wire", graph=dot2, shards=16, maxlen=12, env=env, timeout=1500, name="wire.t2")
+        ok = ctx.validate("TraceWire", "TraceWire.cfg", f2, what="class-sequence tree 2", timeout=1500) and ok
+        allfiles += f2
+        edges += s2["graph_edges"]
+        # the first tree again with other payload bytes and read splits for every class
+        e3 = dict(env, VERIF_SEED=str(ctx.seed * 1000 + 7))
+        f3, s3 = ctx.replay("wire", graph=dot, shards=16, maxlen=12, env=e3, timeout=1500, name="wire.s2")
+        ok = ctx.validate("TraceWire", "TraceWire.cfg", f3, what="class-sequence tree, other instantiation", timeout=1500) and ok
         allfiles += f3
+        # longer random walks in which every kept class carries on
+        sim = ctx.tlc_simulate("MCWire", "MCWire_sim.cfg", num=800, depth=10, prefix="wiresim", timeout=300)
+        for f in glob.glob(sim):
+            # tla.LoadSim cuts the label at the LAST " line " and so keeps half of "line a, col b to line c, col d": normalise the location
+            txt = re.sub(r" line \d+, col \d+ to line \d+, col \d+ of module \w+>", " line 0>", open(f).read())
+            open(f, "w").write(txt)
+        f4, s4 = ctx.replay("wire", sim=sim, shards=16, env=env, timeout=1500, name="wire.sim")
+        ok = ctx.validate("TraceWire", "TraceWire.cfg", f4, what="simulated longer sequences", timeout=1500) and ok
+        allfiles += f4
     n, lines, samples, ratio = nontrivial(allfiles)
     ctx.cov["evaluations"] = lines
     ctx.cov["distinct_nontrivial"] = n
@@ -87,11 +102,11 @@ def run(ctx):
                        "actually read attacker bytes in that step (or died in it)")
     ctx.cov["samples"] = samples or summ["samples"]
     ctx.cov["exhaustive"] = False
-    ctx.extra["distinct_transitions_replayed"] = summ["graph_edges"] if ok else 0
-    ctx.extra["transitions_in_graph"] = summ["graph_edges"]
+    ctx.extra["distinct_transitions_replayed"] = edges if ok else 0
+    ctx.extra["transitions_in_graph"] = edges
     ctx.extra["max_alloc_bytes_per_byte_read_over_4KiB_inputs"] = round(ratio, 1)
-    ctx.extra["bounds"] = dict(max_inputs_per_phase=dict(PreHs=1, ProtoHs=2, Est=2 if ctx.quick() else 3), reconnect_probe_after_len=3,
-                               alloc_bound="25 MiB (MaxPackageLength) + 16 MiB + 256 x KiB read in the step", quiescence_cap_ms=10000)
+    ctx.extra["bounds"] = dict(max_inputs_per_phase=dict(PreHs=1, ProtoHs=1 if ctx.quick() else 2, Est=2 if ctx.quick() else 3), reconnect_probe_after_len=3,
+                               alloc_bound="25 MiB (MaxPackageLength) + 16 MiB + 256 x KiB read in the step", quiescence_cap_ms=30000)
     ctx.assumptions += [
         "input space is partitioned into the classes of spec/WireClasses.tla; inside a class the bytes are seeded samples, not all byte strings",
         "the node's side of a connection is driven like p2p.Server.HandleConn/run but over net.Pipe (Server needs a TCP port); one remote party at a time",
